@@ -23,6 +23,7 @@ const FS_FAULTS: &[&str] = &[
     "stale_output",
     "odd_dir_name",
     "stale_results",
+    "stale_gains_table",
 ];
 const ODD_NAMES: &[&str] = &["Proyecto [rev2]", "casa (copia) 1", "obra?", "edif*", "Año 2024 ñ", "a b\tc"];
 const RUST_LOGS: &[Option<&str>] = &[None, None, Some("error"), Some("warn"), Some("info"), Some("debug"), Some("trace")];
@@ -180,6 +181,8 @@ pub fn run(tier: &str, seed: u64, replay: Option<String>) -> i32 {
         // result files that are older than the last edit of the project (windows renamed since)
         env_jobs.push(json!({"t":"env","project":p,"tool":"hulc2model","use_extra":true,"fs":["stale_results"],"rust_log":Value::Null,
             "path_form":"abs","hash_seed":12345,"fake_time":Value::Null,"lang":Value::Null,"thor_r":false,"thor_v":0}));
+        env_jobs.push(json!({"t":"env","project":p,"tool":"hulc2model","use_extra":true,"fs":["stale_gains_table"],"rust_log":Value::Null,
+            "path_form":"abs","hash_seed":54321,"fake_time":Value::Null,"lang":Value::Null,"thor_r":false,"thor_v":0}));
         // the documented use: stdout redirected to a file; and an interactive terminal
         for dev in ["file", "tty"] {
             env_jobs.push(json!({"t":"env","project":p,"tool":"hulc2model","use_extra":dev == "file","fs":[],"rust_log":Value::Null,
